@@ -39,6 +39,14 @@ func genC16(t *rapid.T) c16Case {
 		c.Cfg.Initial = math.MaxInt32 - rapid.IntRange(0, 20).Draw(t, "belowMaxInt32") // AIMD has no ceiling: the steps across 2^31-1
 		c.Cfg.IncreaseBy = rapid.SampledFrom([]int{1, 2, 7}).Draw(t, "incrAtInt32")
 	}
+	if c.Cfg.Algo == "gradient" && c.Cfg.Ctor == "" && len(c.Cfg.Unset) == 0 && rapid.IntRange(0, 5).Draw(t, "tinyGradient") == 0 {
+		// a tiny ceiling under the default queue function (whose allowance never drops below 4) and frequent probes: the
+		// probe's restart value lies beyond the ceiling. Nothing is claimed here about where the estimate goes, only that
+		// listeners are told what EstimatedLimit() reports afterwards
+		c.Cfg.Max = rapid.IntRange(1, 3).Draw(t, "tinyMax")
+		c.Cfg.Min, c.Cfg.Initial, c.Cfg.Queue = 1, rapid.IntRange(1, c.Cfg.Max).Draw(t, "tinyInitial"), ""
+		c.Cfg.ProbeInterval = rapid.IntRange(1, 4).Draw(t, "tinyProbe")
+	}
 	c.PollEvery = rapid.SampledFrom([]int{0, 0, 1, 3, 7, 1000}).Draw(t, "pollEvery")
 	if !c.Cfg.Windowed && c.Cfg.Outer2 != "windowed" {
 		c.Times = rapid.SampledFrom([]int{1, 1, 1, 1, 3, 10}).Draw(t, "times")
